@@ -5,7 +5,7 @@ REQUIRED = ["CifModel.C10_to_double_big", "CifModel.C10_to_double_zero", "CifMod
             "CifModel.C10_rne_is_nearest", "CifModel.C10_syntax", "CifModel.C10_su_scaled", "CifModel.C10_rejects_unchanged", "CifModel.C10_accepts_fields",
             "CifModel.C10_exponent_no_overflow", "CifModel.C10_scale_within_int", "CifModel.C10_cex_scale_exceeds_int_pinned",
             "CifModel.C10_scale_within_int_pinned_refuted",
-            "CifModel.C10_init_correctly_rounded", "CifModel.C10_init_text_roundtrip", "CifModel.C10_autoinit_text_roundtrip", "CifModel.C10_autoinit_scale", "CifModel.C10_limbs_shr_pass", "CifModel.C10_limbs_shl_pass", "CifModel.C10_limbs_round_to_int",
+            "CifModel.C10_init_correctly_rounded", "CifModel.C10_init_text_roundtrip", "CifModel.C10_autoinit_text_roundtrip", "CifModel.C10_autoinit_scale", "CifModel.C10_limbs_shr_pass", "CifModel.C10_limbs_shl_pass", "CifModel.C10_limbs_round_to_int", "CifModel.C10_limbs_carry_loop",
             "CifModel.Lemmas.NumbLimbLink.link_limb_arrays",
             "CifModel.Lemmas.NumbLink.link_chars", "CifModel.Lemmas.NumbLink.link_int", "CifModel.Lemmas.NumbLink.link_float",
             "CifModel.Lemmas.NumbLink.link_bignum", "CifModel.Lemmas.NumbLink.link_misc", "CifModel.Lemmas.NumbLink.link_ldexp"]
@@ -30,8 +30,9 @@ ASSUMPTIONS = [
 PARTIAL = [
     "C10_limbs_refine_big_full (toDoubleLimbs = toDoubleBig, toDigitsLimbs = toDigitsBig): the limb level is modelled as written "
     "(Model/NumbLimbs.lean) and its loop invariants are proved at pass granularity (C10_limbs_shr_pass, C10_limbs_shl_pass: exact "
-    "division/multiplication of the array's number; C10_limbs_round_to_int: limb rounding = exact rounding); the index bookkeeping that "
-    "assembles them into the two equalities (reading digits into the array, units/msd positions, lsd quirks, to_digits carry loop and digit "
+    "division/multiplication of the array's number; C10_limbs_round_to_int: limb rounding = exact rounding; C10_limbs_carry_loop: to_digits' carry propagation preserves the printed number "
+    "and ends on a proper limb); the index bookkeeping that "
+    "assembles them into the two equalities (reading digits into the array, units/msd positions, lsd quirks, to_digits' rounding inside a limb and digit "
     "generation) is not proved - the equalities are checked on every todbl/todig request (the driver evaluates both levels and the real code)",
 ]
 LEVEL_TEXT = ("Proof at the exact-arithmetic level: the model of to_double() returns the IEEE 754 round-to-nearest-even double for every "
